@@ -31,6 +31,8 @@ func recoverSpec(h string, r, s, id *sym.Term) (*Formula, *sym.Term) {
 
 func checkC11(c *Ctx) {
 	prog := c.Prog(load.AMD64)
+	// "for a signature produced by Sign the emitted id recovers the signer": the id formula of sign (rule C08-1)
+	c08Sign(c, prog)
 	name := models.SececPkg + ".RecoverPublicKey"
 	r := RunFn(prog, protoSet(nil), name, &RunOpts{Args: named("h", "r", "s", "id")})
 	if r.Fn == nil {
